@@ -103,7 +103,8 @@ with frame :=
 | FWindRet (v : val)                                                 (* after thunk is running; then return v *)
 | FRewind (todo : list (bool * wind)) (k : list frame) (w : list wind) (v : val)
                                                                      (* running wind thunks before a continuation jump *)
-with wind := Wind (before after : val).
+| FReraise (e : val)                                                 (* re-raise e once the wind thunks of an error unwind have run *)
+with wind := Wind (id : nat) (before after : val).         (* id: allocation stamp, the winder's identity *)
 
 Inductive control :=
 | CEval (e : expr) (ρ : env)
@@ -502,6 +503,16 @@ Fixpoint common_len (fuel : nat) (a b : list wind) : nat :=
   (* List.length of the common suffix, identifying winders by position from the outermost *)
   let la := List.length a in let lb := List.length b in Nat.min la lb.
 
+Definition wind_id (x : wind) : nat := match x with Wind i _ _ => i end.
+(* length of the longest common suffix of two winders lists (innermost first) *)
+Fixpoint common_prefix_len (a b : list nat) : nat :=
+  match a, b with
+  | x :: a', y :: b' => if Nat.eqb x y then S (common_prefix_len a' b') else O
+  | _, _ => O
+  end.
+Definition common_suffix_len (a b : list wind) : nat :=
+  common_prefix_len (rev (map wind_id a)) (rev (map wind_id b)).
+
 Definition apply_proc (st : state) (f : val) (args : list val) : state :=
   match f with
   | VClo ps rest body ρ =>
@@ -521,13 +532,10 @@ Definition apply_proc (st : state) (f : val) (args : list val) : state :=
   | VCont k w =>
       match args with
       | [v] =>
-          (* leave the current winders down to the common suffix, then enter the target's *)
+          (* leave the current winders down to the common suffix, then enter the target's
+             (parameters.scm common-tail / do-wind); winders are identified by their stamp *)
           let cur := winds st in
-          let n := (fix common (a b : list wind) (la lb : nat) {struct la} : nat :=
-                      match la with
-                      | O => O
-                      | S la' => Nat.min (List.length a) (List.length b)
-                      end) cur w (List.length cur) (List.length w) in
+          let n := common_suffix_len cur w in
           let leaving := firstn (List.length cur - n) cur in
           let entering := rev (firstn (List.length w - n) w) in
           let todo := (map (fun x => (false, x)) leaving ++ map (fun x => (true, x)) entering)%list in
@@ -700,7 +708,11 @@ Definition step (st : state) : state + outcome :=
                             else inl (raise st (mk_err EFree x))
                   end
         end
-    | Lam ps rest body => inl (ret st (VClo ps rest body ρ))
+    | Lam ps rest body =>
+        (* global references are resolved when the enclosing evaluation unit is compiled: the closure
+           keeps the global bindings in force at that time (a later redefinition creates a new binding
+           that only later units see; set! mutates the binding itself) *)
+        inl (ret st (VClo ps rest body (ρ ++ genv st)%list))
     | App f args =>
         match args with
         | [] => inl (push st (CEval f ρ) (FFun []))
@@ -785,9 +797,12 @@ Definition step (st : state) : state + outcome :=
           end
       | FInit l => inl (ret (write_store st l v) VVoid)
       | FDefineGlobal x =>
-          (* a top-level define creates a fresh binding (earlier closures keep the old one) *)
-          let '(l, st') := alloc st v in
-          inl (ret (set_genv st' ((x, l) :: genv st')) VVoid)
+          (* the binding was created when the unit was entered (run_unit); define initialises it *)
+          match lookup x (genv st) with
+          | Some l => inl (ret (write_store st l v) VVoid)
+          | None => let '(l, st') := alloc st v in
+                    inl (ret (set_genv st' ((x, l) :: genv st')) VVoid)
+          end
       | FSeq es ρ => inl (eval_body st es ρ)
       | FLet x done todo body ρ =>
           match todo with
@@ -833,19 +848,21 @@ Definition step (st : state) : state + outcome :=
           | x :: r => inl (push st (CApply f [x; v]) (FFoldl f r))
           end
       | FWindBody b t a =>
-          let st' := set_winds st (Wind b a :: winds st) in
+          let '(wid, st0) := alloc st VVoid in
+          let st' := set_winds st0 (Wind wid b a :: winds st0) in
           inl (push st' (CApply t []) (FWindAfter a))
       | FWindAfter a =>
           let st' := set_winds st (tl (winds st)) in
           inl (push st' (CApply a []) (FWindRet v))
       | FWindRet v0 => inl (ret st v0)
+      | FReraise e0 => inl (raise st e0)
       | FRewind todo k' w v0 =>
           match todo with
           | [] => inl (set_ck (set_winds st w) (CRet v0) k')
-          | (false, Wind _ a) :: r =>
+          | (false, Wind _ _ a) :: r =>
               let st' := set_winds st (tl (winds st)) in
               inl (set_ck st' (CApply a []) [FRewind r k' w v0])
-          | (true, Wind b a) :: r =>
+          | (true, Wind _ b a) :: r =>
               inl (set_ck st (CApply b []) [FRewind r k' w v0])
           end
       end
@@ -859,8 +876,21 @@ Definition step (st : state) : state + outcome :=
       | _ :: r => find r
       end in
     match find (kont st) with
-    | Some (h, w, k') => inl (set_ck (set_winds st w) (CApply h [e]) k')
-    | None => inr (Failed e st)
+    | Some (h, w, k') =>
+        (* dynamic-wind installs its own exception handler that pops the winder, runs `after` and
+           re-raises (parameters.scm L275-296): the winders entered inside the with-handler are left,
+           innermost first, before the handler procedure runs *)
+        let leaving := firstn (List.length (winds st) - List.length w) (winds st) in
+        match leaving with
+        | [] => inl (set_ck (set_winds st w) (CApply h [e]) k')
+        | _ => inl (set_ck st (CRet VVoid)
+                      [FRewind (map (fun x => (false, x)) leaving) (FFun [e] :: k') w h])
+        end
+    | None =>
+        match winds st with
+        | [] => inr (Failed e st)
+        | ws => inl (set_ck st (CRet VVoid) [FRewind (map (fun x => (false, x)) ws) [FReraise e] [] VVoid])
+        end
     end
   end.
 
@@ -876,41 +906,46 @@ Fixpoint run (fuel : nat) (st : state) : outcome :=
 (* ------------------------------------------------------------------ evaluation units and histories *)
 (* free-identifier check of a whole unit before it runs (reported at compile time by the engine) *)
 Section Free.
-  Variable known : ident -> bool.      (* globals (including those the unit defines) and primitives *)
-  Fixpoint free_in (fuel : nat) (bound : list ident) (e : expr) : bool :=
+  (* [known_later]: names resolvable by code that runs later (inside lambda bodies): globals, names the
+     unit defines, primitives.  [known_now]: names resolvable by code that runs while the form itself is
+     evaluated: the same minus the names of this unit whose define has not been reached yet
+     ("cannot reference an identifier before its definition"). *)
+  Variable known_later : ident -> bool.
+  Variable known_now : ident -> bool.
+  Fixpoint free_in (fuel : nat) (top : bool) (bound : list ident) (e : expr) : bool :=
     match fuel with
     | O => false
     | S f =>
-      let fb := fun b es => existsb (free_in f b) es in
-      let isb := fun b x => existsb (String.eqb x) b || known x in
+      let fb := fun b es => existsb (free_in f top b) es in
+      let isb := fun b x => existsb (String.eqb x) b || (if top then known_now x else known_later x) in
       match e with
       | Const _ | Quote _ => false
       | Var x => negb (isb bound x)
       | Lam ps rest body =>
           let b := (ps ++ (match rest with Some r => [r] | None => [] end) ++ body_defines body ++ bound)%list in
-          fb b body
-      | App g args => free_in f bound g || fb bound args
-      | If c t e' => free_in f bound c || free_in f bound t || free_in f bound e'
-      | SetBang x e' => negb (isb bound x) || free_in f bound e'
+          existsb (free_in f false b) body
+      | App g args => free_in f top bound g || fb bound args
+      | If c t e' => free_in f top bound c || free_in f top bound t || free_in f top bound e'
+      | SetBang x e' => negb (isb bound x) || free_in f top bound e'
       | Begin es => fb bound es
       | Let bs body => fb bound (map snd bs) || fb (map fst bs ++ body_defines body ++ bound)%list body
       | LetStar bs body =>
           (fix go (bs : list (ident * expr)) (b : list ident) : bool :=
              match bs with
              | [] => fb (body_defines body ++ b)%list body
-             | (x, e') :: r => free_in f b e' || go r (x :: b)
+             | (x, e') :: r => free_in f top b e' || go r (x :: b)
              end) bs bound
       | Letrec bs body =>
           let b := (map fst bs ++ body_defines body ++ bound)%list in fb b (map snd bs) || fb b body
       | NamedLet g bs body =>
           fb bound (map snd bs) || fb (g :: map fst bs ++ body_defines body ++ bound)%list body
       | And es | Or es => fb bound es
-      | When c es | Unless c es => free_in f bound c || fb bound es
+      | When c es | Unless c es => free_in f top bound c || fb bound es
       | Cond cl els =>
-          existsb (fun c => free_in f bound (fst c) || fb bound (snd c)) cl
+          existsb (fun c => free_in f top bound (fst c) || fb bound (snd c)) cl
           || match els with Some b => fb bound b | None => false end
-      | Define x e' => free_in f bound e'
-      | WithHandler h body => free_in f bound h || fb bound body
+      | Define x e' => free_in f top bound e'
+      | WithHandler h body => free_in f top bound h || fb bound body
       end
     end.
 End Free.
@@ -943,15 +978,33 @@ Fixpoint run_forms (fuel : nat) (forms : list expr) (st : state) (acc : list val
     end
   end.
 
+(* free-identifier check of the forms of a unit, in order: [done] = names of this unit already defined *)
+Fixpoint unit_has_free (later : ident -> bool) (pending : list ident) (forms : list expr) : bool :=
+  match forms with
+  | [] => false
+  | e :: r =>
+    let now := fun x => later x && negb (existsb (String.eqb x) pending) in
+    free_in later now 1000 true [] e
+    || unit_has_free later (match e with
+                            | Define x _ => filter (fun y => negb (String.eqb y x)) pending
+                            | _ => pending
+                            end) r
+  end.
+
 Definition run_unit (fuel : nat) (forms : list expr) (st : state) : unit_result * state :=
   let defs := unit_defines forms in
   let known := fun x => existsb (String.eqb x) defs
                         || (match lookup x (genv st) with Some _ => true | None => false end)
                         || (match prim_of_name x with Some _ => true | None => false end)
                         || String.eqb x "void" in
-  if existsb (free_in known 1000 []) forms
+  if unit_has_free known defs forms
   then (UErr EFree "free identifier", st)
-  else run_forms fuel forms st [].
+  else
+    (* every name the unit defines gets a fresh binding before any form runs (earlier closures keep
+       referring to the previous binding of that name) *)
+    let names := nodup string_dec defs in
+    let '(g', st1) := alloc_many st names (map (fun _ => VVoid) names) (genv st) in
+    run_forms fuel forms (set_genv st1 g') [].
 
 (* a history: units evaluated one after the other on the same engine; a failing unit keeps the
    effects it had before failing (definitions completed, output, mutations) *)
